@@ -8,6 +8,8 @@ import (
 	"os"
 	"path/filepath"
 	"regexp"
+	"runtime/debug"
+	"runtime/pprof"
 	"sort"
 	"strings"
 
@@ -100,7 +102,15 @@ func cmdRun(args []string) int {
 	fs.BoolVar(&cfg.DebugAborts, "debug", false, "print aborted paths")
 	solver := fs.String("solver", "z3", "z3|z3-new|cvc5")
 	seed := fs.Int64("seed", 0, "seed")
+	gogc := fs.Int("gogc", 600, "GC percent of the engine process")
+	cpuprof := fs.String("cpuprofile", "", "write CPU profile")
 	fs.Parse(args)
+	if *cpuprof != "" {
+		f, _ := os.Create(*cpuprof)
+		pprof.StartCPUProfile(f)
+		defer pprof.StopCPUProfile()
+	}
+	debug.SetGCPercent(*gogc)
 	cfg.Solver = symx.SolverKind(*solver)
 	cfg.Seed = *seed
 	if *tier == "thorough" {
